@@ -96,7 +96,7 @@ pub fn units(tier: Tier, seed: u64) -> Vec<Unit> {
         let clone_at = rng.below(4);
         u.push(unit!(format!("C17/determinism/{} over {}/k=6/clone@{clone_at}", o.name(), i.name()), determinism(o.clone(), Some(i.clone()), 6usize, pattern.clone(), clone_at)));
     }
-    for x in u.iter_mut() { x.path_cap = 8000; x.budget_s = if q { 60.0 } else { 600.0 }; }
+    for x in u.iter_mut() { x.path_cap = 8000; x.branch_nl_timeout_ms = Some(400); x.budget_s = if q { 60.0 } else { 600.0 }; }
     u
 }
 pub fn meta() -> Meta {
